@@ -7,7 +7,9 @@ import (
 	"crypto/rsa"
 	"crypto/sha256"
 	"encoding/base64"
+	"encoding/hex"
 	"encoding/json"
+	"strconv"
 	"strings"
 	"time"
 
@@ -498,6 +500,140 @@ func (r *run) jwtRS() {
 			r.jwtRSCase(s.ks, valid, []byte(tok2), true, s.user, s.host, nil)
 			r.jwtRSCase(s.ks, valid, []byte(tok2), false, "", "", nil)
 		}
+	}
+}
+
+// ---- JSON leniency ------------------------------------------------------------------
+
+type jsonVariant struct {
+	name string
+	kind byte // 'h' header, 'c' claims
+	text string
+}
+
+func jsonVariants(T int64) []jsonVariant {
+	ts := func(v int64) string { return z(v) }
+	h := func(n, t string) jsonVariant { return jsonVariant{n, 'h', t} }
+	c := func(n, t string) jsonVariant { return jsonVariant{n, 'c', t} }
+	okc := `"iss":"i","aud":"a","sub":"s","iat":` + ts(T) + `,"exp":` + ts(T+600)
+	return []jsonVariant{
+		h("plain", `{"alg":"HS256","typ":"JWT","kid":"k"}`),
+		h("dup-alg-last-wins", `{"alg":"none","alg":"HS256","typ":"JWT","kid":"k"}`),
+		h("dup-alg-last-none", `{"alg":"HS256","alg":"none","typ":"JWT","kid":"k"}`),
+		h("dup-kid", `{"alg":"HS256","typ":"JWT","kid":"other","kid":"k"}`),
+		h("upper-keys", `{"ALG":"HS256","TYP":"JWT","KID":"k"}`),
+		h("mixed-keys", `{"Alg":"HS256","tYp":"JWT","kId":"k"}`),
+		h("exact-after-folded", `{"ALG":"none","alg":"HS256","typ":"JWT","kid":"k"}`),
+		h("folded-after-exact", `{"alg":"HS256","ALG":"none","typ":"JWT","kid":"k"}`),
+		h("unknown-fields", `{"alg":"HS256","typ":"JWT","kid":"k","crit":["x"],"jku":"http://e"}`),
+		h("null-kid", `{"alg":"HS256","typ":"JWT","kid":null}`),
+		h("null-alg", `{"alg":null,"typ":"JWT","kid":"k"}`),
+		h("null-typ", `{"alg":"HS256","typ":null,"kid":"k"}`),
+		h("nested-alg", `{"alg":{"x":"HS256"},"typ":"JWT","kid":"k"}`),
+		h("array-kid", `{"alg":"HS256","typ":"JWT","kid":["k"]}`),
+		h("number-kid", `{"alg":"HS256","typ":"JWT","kid":1}`),
+		h("trailing-garbage", `{"alg":"HS256","typ":"JWT","kid":"k"}x`),
+		h("two-objects", `{"alg":"HS256","typ":"JWT","kid":"k"}{"alg":"none"}`),
+		h("surrounding-space", " \n{\"alg\":\"HS256\",\"typ\":\"JWT\",\"kid\":\"k\"}\t "),
+		h("escaped-value", `{"alg":"HS\u0032\u0035\u0036","typ":"JWT","kid":"k"}`),
+		h("escaped-key", `{"\u0061lg":"HS256","typ":"JWT","kid":"k"}`),
+		h("empty-object", `{}`),
+		h("null", `null`),
+		h("array", `[{"alg":"HS256","typ":"JWT","kid":"k"}]`),
+		h("string", `"HS256"`),
+		h("bom", "\xef\xbb\xbf"+`{"alg":"HS256","typ":"JWT","kid":"k"}`),
+		h("kid-with-nul", `{"alg":"HS256","typ":"JWT","kid":"k\u0000"}`),
+		c("plain", `{`+okc+`}`),
+		c("dup-exp-last-wins", `{"exp":1,`+okc+`}`),
+		c("dup-exp-last-small", `{`+okc+`,"exp":1}`),
+		c("upper-exp", `{"iss":"i","aud":"a","sub":"s","iat":`+ts(T)+`,"EXP":`+ts(T+600)+`}`),
+		c("mixed-iat", `{"iss":"i","aud":"a","sub":"s","Iat":`+ts(T)+`,"exp":`+ts(T+600)+`}`),
+		c("exp-string", `{"iss":"i","aud":"a","sub":"s","iat":`+ts(T)+`,"exp":"`+ts(T+600)+`"}`),
+		c("exp-float", `{"iss":"i","aud":"a","sub":"s","iat":`+ts(T)+`,"exp":`+ts(T+600)+`.0}`),
+		c("exp-float-frac", `{"iss":"i","aud":"a","sub":"s","iat":`+ts(T)+`,"exp":`+ts(T+600)+`.5}`),
+		c("exp-1e3", `{"iss":"i","aud":"a","sub":"s","iat":0,"exp":1e3}`),
+		c("exp-1e10", `{"iss":"i","aud":"a","sub":"s","iat":0,"exp":1e10}`),
+		c("exp-huge-exponent", `{"iss":"i","aud":"a","sub":"s","iat":0,"exp":1e400}`),
+		c("exp-big-int", `{"iss":"i","aud":"a","sub":"s","iat":0,"exp":99999999999999999999}`),
+		c("exp-max-int64", `{"iss":"i","aud":"a","sub":"s","iat":0,"exp":9223372036854775807}`),
+		c("exp-negative", `{"iss":"i","aud":"a","sub":"s","iat":-100,"exp":-1}`),
+		c("exp-null", `{"iss":"i","aud":"a","sub":"s","iat":`+ts(T)+`,"exp":null}`),
+		c("exp-missing", `{"iss":"i","aud":"a","sub":"s","iat":`+ts(T)+`}`),
+		c("iat-missing", `{"iss":"i","aud":"a","sub":"s","exp":`+ts(T+600)+`}`),
+		c("exp-bool", `{"iss":"i","aud":"a","sub":"s","iat":`+ts(T)+`,"exp":true}`),
+		c("exp-nested", `{"iss":"i","aud":"a","sub":"s","iat":`+ts(T)+`,"exp":{"v":`+ts(T+600)+`}}`),
+		c("exp-leading-zero", `{"iss":"i","aud":"a","sub":"s","iat":`+ts(T)+`,"exp":0`+ts(T+600)+`}`),
+		c("exp-plus", `{"iss":"i","aud":"a","sub":"s","iat":`+ts(T)+`,"exp":+`+ts(T+600)+`}`),
+		c("sub-nested", `{"iss":"i","aud":"a","sub":{"x":"s"},"iat":`+ts(T)+`,"exp":`+ts(T+600)+`}`),
+		c("aud-array", `{"iss":"i","aud":["a"],"sub":"s","iat":`+ts(T)+`,"exp":`+ts(T+600)+`}`),
+		c("iss-null", `{"iss":null,"aud":"a","sub":"s","iat":`+ts(T)+`,"exp":`+ts(T+600)+`}`),
+		c("iss-number", `{"iss":5,"aud":"a","sub":"s","iat":`+ts(T)+`,"exp":`+ts(T+600)+`}`),
+		c("unknown-fields", `{`+okc+`,"nbf":`+ts(T+10000)+`,"jti":"x","admin":true}`),
+		c("extra-nested", `{`+okc+`,"x":{"exp":1,"y":[1,2,{"z":null}]}}`),
+		c("trailing-garbage", `{`+okc+`}x`),
+		c("two-objects", `{`+okc+`}{"exp":99999999999}`),
+		c("surrounding-space", "\n {"+okc+"} \n"),
+		c("empty-object", `{}`),
+		c("null", `null`),
+		c("array", `[]`),
+		c("string", `"x"`),
+		c("number", `5`),
+		c("empty", ``),
+		c("escaped-key", `{"iss":"i","aud":"a","sub":"s","iat":`+ts(T)+`,"\u0065xp":`+ts(T+600)+`}`),
+		c("sub-escapes", `{"iss":"i","aud":"a","sub":"s\u0000\n\ud800","iat":`+ts(T)+`,"exp":`+ts(T+600)+`}`),
+		c("invalid-utf8", "{\"iss\":\"i\",\"aud\":\"a\",\"sub\":\"s\xff\",\"iat\":"+ts(T)+",\"exp\":"+ts(T+600)+"}"),
+		c("deep-nesting", `{`+okc+`,"x":`+strings.Repeat("[", 200)+strings.Repeat("]", 200)+`}`),
+	}
+}
+
+func parsedPin(hp *Hdr, cp *Claims) string {
+	un := func(h string) string { b, _ := hex.DecodeString(h); return strconv.Quote(string(b)) }
+	switch {
+	case hp != nil:
+		return "alg=" + un(hp.Alg) + " typ=" + un(hp.Typ) + " kid=" + un(hp.Kid)
+	case cp != nil:
+		return "iss=" + un(cp.Iss) + " aud=" + un(cp.Aud) + " sub=" + un(cp.Sub) + " scope=" + un(cp.Scope) +
+			" typ=" + un(cp.Typ) + " iat=" + cp.Iat + " exp=" + cp.Exp
+	}
+	return "rejected"
+}
+
+// jwtJSON: tokens whose header or claims JSON the issuer would never write,
+// correctly signed (so the signature is not what decides): the model is given
+// what encoding/json makes of the segment and must agree on the outcome, and
+// what encoding/json makes of it is pinned (jsonPins) so that a change in
+// leniency, in the package or in the library, is noticed.
+func (r *run) jwtJSON() {
+	r.initKeys()
+	T := int64(1700000000)
+	const ns = int64(time.Second)
+	vs := jsonVariants(T)
+	plainH, plainC := b64([]byte(vs[0].text)), ""
+	for _, v := range vs {
+		if v.kind == 'c' && v.name == "plain" {
+			plainC = b64([]byte(v.text))
+		}
+	}
+	for _, v := range vs {
+		txt := plainH + "." + b64([]byte(v.text))
+		if v.kind == 'h' {
+			txt = b64([]byte(v.text)) + "." + plainC
+		}
+		tok := []byte(txt + "." + b64(hmacOf(1, []byte(txt))))
+		for _, now := range []int64{(T + 10) * ns, 500 * ns, -50 * ns} {
+			r.jwtHSCase(1, "k", now, tok, nil)
+		}
+		_, hp, cp := parseSegs(tok)
+		got := ""
+		if v.kind == 'h' {
+			got = parsedPin(hp, nil)
+		} else {
+			got = parsedPin(nil, cp)
+		}
+		c := &Case{Stream: "jwt-json", Op: "jsonpin", Note: string(v.kind) + ":" + v.name, Data: hx16([]byte(v.text)),
+			User: hx16([]byte(jsonPins[string(v.kind)+":"+v.name])), Host: hx16([]byte(got))}
+		c.Obs.Ok = jsonPins[string(v.kind)+":"+v.name] == got
+		r.emit(c)
 	}
 }
 
